@@ -246,4 +246,224 @@ example : ∃ (d0 : List ℝ) (rest : List (List ℝ × ℕ)), d0 ≠ [] ∧ res
 example : ∃ r φ : ℝ, 0 ≤ r ∧ 0 ≤ φ ∧ φ ≤ 2 * Real.pi :=
   ⟨1, Real.pi / 2, by norm_num, by positivity, by linarith [Real.pi_pos]⟩
 
+/-! ## 7. the y-faces at the two ends of a region (`hy.ylow[i, 0]`, `hy.ylow[i, -1]`, `hy.corners[i, 0]`)
+
+`hyYlowFirst d below`, `hyYlowLast d above`, `hyYlowAll d below above`: `below` / `above` are the distance lists of the
+contour with the same radial index in the neighbouring region (`none` at a target).  In the arc-length statements
+`G : ℤ → ℝ` is the arc length along one flux surface at the points of the chain of regions (face, centre, face, …), the last
+point of the region below being the first point (index `K`) of this region and the last point of this region (index
+`K + 2·ny`) the first point of the region above; every region measures its distances from its own origin (`c`, `cb`, `ca`). -/
+
+/-- one value per y-face of the region -/
+theorem hyYlowAll_length (d : List ℝ) (below above : Option (List ℝ)) (ny : ℕ) (hd : d.length = 2 * ny + 1)
+    (hny : 1 ≤ ny) :
+    (hyYlowAll d below above).length = ny + 1 := by
+  rw [hyYlowAll_eq, List.length_append, List.length_cons, hyYlowInner_length_odd d ny hd]
+  simp only [List.length_cons, List.length_nil]
+  omega
+
+/-- the entries of `hyYlowAll`: the lower end face, the interior faces (section 1), the upper end face -/
+theorem hyYlowAll_entries (d : List ℝ) (below above : Option (List ℝ)) (ny : ℕ) (hd : d.length = 2 * ny + 1)
+    (hny : 1 ≤ ny) :
+    (hyYlowAll d below above)[0]? = some (hyYlowFirst d below) ∧
+    (∀ j : ℕ, j + 1 < ny → (hyYlowAll d below above)[j + 1]? = some (d.getD (2 * j + 3) 0 - d.getD (2 * j + 1) 0)) ∧
+    (hyYlowAll d below above)[ny]? = some (hyYlowLast d above) := by
+  have hlen : (hyYlowInner d).length = ny - 1 := hyYlowInner_length_odd d ny hd
+  refine ⟨by rw [hyYlowAll_eq]; rfl, fun j hj => ?_, ?_⟩
+  · have h' : j < (hyYlowInner d).length := by omega
+    rw [hyYlowAll_eq, List.cons_append, List.getElem?_cons_succ, List.getElem?_append_left h',
+      List.getElem?_eq_getElem h', hyYlowInner_getElem d j (by omega) h',
+      List.getD_eq_getElem d 0 (by omega : 2 * j + 3 < d.length),
+      List.getD_eq_getElem d 0 (by omega : 2 * j + 1 < d.length)]
+  · have e : ny = (hyYlowFirst d below :: hyYlowInner d).length := by rw [List.length_cons, hlen]; omega
+    rw [hyYlowAll_eq]
+    conv_lhs => rw [e]
+    rw [List.getElem?_append_right (le_refl _)]
+    simp
+
+/-- at a join the lower end face is the arc length between the two cell centres either side of it: the last centre of the
+    region below and the first centre of this region; the origins `c`, `cb` of the two regions drop out -/
+theorem hyYlowFirst_join (G : ℤ → ℝ) (K : ℤ) (c cb : ℝ) (d db : List ℝ) (ny nb : ℕ) (hny : 1 ≤ ny) (hnb : 1 ≤ nb)
+    (hb : db.length = 2 * nb + 1)
+    (hG : ∀ k : ℕ, k ≤ 2 * ny → d.getD k 0 = G (K + k) - c)
+    (hGb : ∀ k : ℕ, k ≤ 2 * nb → db.getD k 0 = G (K - 2 * nb + k) - cb) :
+    hyYlowFirst d (some db) = G (K + 1) - G (K - 1) := by
+  obtain ⟨m, rfl⟩ : ∃ m, nb = m + 1 := ⟨nb - 1, by omega⟩
+  have e1 : db.length - 1 = 2 * m + 2 := by omega
+  have e2 : db.length - 2 = 2 * m + 1 := by omega
+  rw [hyYlowFirst_some, e1, e2, hG 1 (by omega), hG 0 (by omega), hGb (2 * m + 2) (by omega),
+    hGb (2 * m + 1) (by omega)]
+  have a0 : K + ((0 : ℕ) : ℤ) = K := by omega
+  have a1 : K + ((1 : ℕ) : ℤ) = K + 1 := by omega
+  have b1 : K - 2 * ((m + 1 : ℕ) : ℤ) + ((2 * m + 2 : ℕ) : ℤ) = K := by omega
+  have b2 : K - 2 * ((m + 1 : ℕ) : ℤ) + ((2 * m + 1 : ℕ) : ℤ) = K - 1 := by omega
+  rw [a0, a1, b1, b2]
+  ring
+
+/-- at a join the upper end face is the arc length between the last centre of this region and the first centre of the
+    region above -/
+theorem hyYlowLast_join (G : ℤ → ℝ) (K : ℤ) (c ca : ℝ) (d da : List ℝ) (ny na : ℕ) (hny : 1 ≤ ny) (hna : 1 ≤ na)
+    (hd : d.length = 2 * ny + 1)
+    (hG : ∀ k : ℕ, k ≤ 2 * ny → d.getD k 0 = G (K + k) - c)
+    (hGa : ∀ k : ℕ, k ≤ 2 * na → da.getD k 0 = G (K + 2 * ny + k) - ca) :
+    hyYlowLast d (some da) = G (K + 2 * ny + 1) - G (K + 2 * ny - 1) := by
+  obtain ⟨m, rfl⟩ : ∃ m, ny = m + 1 := ⟨ny - 1, by omega⟩
+  have e1 : d.length - 1 = 2 * m + 2 := by omega
+  have e2 : d.length - 2 = 2 * m + 1 := by omega
+  rw [hyYlowLast_some, e1, e2, hG (2 * m + 2) (by omega), hG (2 * m + 1) (by omega), hGa 1 (by omega),
+    hGa 0 (by omega)]
+  have a0 : K + 2 * ((m + 1 : ℕ) : ℤ) + ((0 : ℕ) : ℤ) = K + 2 * ((m + 1 : ℕ) : ℤ) := by omega
+  have a1 : K + 2 * ((m + 1 : ℕ) : ℤ) + ((1 : ℕ) : ℤ) = K + 2 * ((m + 1 : ℕ) : ℤ) + 1 := by omega
+  have b1 : K + ((2 * m + 2 : ℕ) : ℤ) = K + 2 * ((m + 1 : ℕ) : ℤ) := by omega
+  have b2 : K + ((2 * m + 1 : ℕ) : ℤ) = K + 2 * ((m + 1 : ℕ) : ℤ) - 1 := by omega
+  rw [a0, a1, b1, b2]
+  ring
+
+/-- at a target (no region below) the lower end face is twice the half cell next to it -/
+theorem hyYlowFirst_target (G : ℤ → ℝ) (K : ℤ) (c : ℝ) (d : List ℝ) (ny : ℕ) (hny : 1 ≤ ny)
+    (hG : ∀ k : ℕ, k ≤ 2 * ny → d.getD k 0 = G (K + k) - c) :
+    hyYlowFirst d none = 2 * (G (K + 1) - G K) := by
+  rw [hyYlowFirst_none, hG 1 (by omega), hG 0 (by omega)]
+  have a0 : K + ((0 : ℕ) : ℤ) = K := by omega
+  have a1 : K + ((1 : ℕ) : ℤ) = K + 1 := by omega
+  rw [a0, a1]
+  ring
+
+/-- at a target (no region above) the upper end face is twice the half cell next to it -/
+theorem hyYlowLast_target (G : ℤ → ℝ) (K : ℤ) (c : ℝ) (d : List ℝ) (ny : ℕ) (hny : 1 ≤ ny)
+    (hd : d.length = 2 * ny + 1)
+    (hG : ∀ k : ℕ, k ≤ 2 * ny → d.getD k 0 = G (K + k) - c) :
+    hyYlowLast d none = 2 * (G (K + 2 * ny) - G (K + 2 * ny - 1)) := by
+  obtain ⟨m, rfl⟩ : ∃ m, ny = m + 1 := ⟨ny - 1, by omega⟩
+  have e1 : d.length - 1 = 2 * m + 2 := by omega
+  have e2 : d.length - 2 = 2 * m + 1 := by omega
+  rw [hyYlowLast_none, e1, e2, hG (2 * m + 2) (by omega), hG (2 * m + 1) (by omega)]
+  have b1 : K + ((2 * m + 2 : ℕ) : ℤ) = K + 2 * ((m + 1 : ℕ) : ℤ) := by omega
+  have b2 : K + ((2 * m + 1 : ℕ) : ℤ) = K + 2 * ((m + 1 : ℕ) : ℤ) - 1 := by omega
+  rw [b1, b2]
+  ring
+
+/-- the faces tile the surface between cell centres: the lower end face and the interior faces of a region with a region
+    below add up to the arc length from the last cell centre of the region below to the last cell centre of this region -/
+theorem hyYlow_sum_join (G : ℤ → ℝ) (K : ℤ) (c cb : ℝ) (d db : List ℝ) (above : Option (List ℝ)) (ny nb : ℕ)
+    (hny : 1 ≤ ny) (hnb : 1 ≤ nb) (hd : d.length = 2 * ny + 1) (hb : db.length = 2 * nb + 1)
+    (hG : ∀ k : ℕ, k ≤ 2 * ny → d.getD k 0 = G (K + k) - c)
+    (hGb : ∀ k : ℕ, k ≤ 2 * nb → db.getD k 0 = G (K - 2 * nb + k) - cb) :
+    ((hyYlowAll d (some db) above).take ny).sum = G (K + 2 * ny - 1) - G (K - 1) := by
+  rw [hyYlowAll_take_sum d _ _ ny hd hny, hyYlowFirst_join G K c cb d db ny nb hny hnb hb hG hGb,
+    hG (2 * ny - 1) (by omega), hG 1 (by omega)]
+  have a1 : K + ((1 : ℕ) : ℤ) = K + 1 := by omega
+  have a2 : K + ((2 * ny - 1 : ℕ) : ℤ) = K + 2 * (ny : ℤ) - 1 := by omega
+  rw [a1, a2]
+  ring
+
+/-- the seeded regression, in general: with the half cell taken from the wrong end of the region below the value is the own
+    half cell plus the FIRST half cell of the region below … -/
+theorem hyYlowFirstWrongEnd_join (G : ℤ → ℝ) (K : ℤ) (c cb : ℝ) (d db : List ℝ) (ny nb : ℕ) (hny : 1 ≤ ny)
+    (hnb : 1 ≤ nb)
+    (hG : ∀ k : ℕ, k ≤ 2 * ny → d.getD k 0 = G (K + k) - c)
+    (hGb : ∀ k : ℕ, k ≤ 2 * nb → db.getD k 0 = G (K - 2 * nb + k) - cb) :
+    hyYlowFirstWrongEnd d db = (G (K + 1) - G K) + (G (K - 2 * nb + 1) - G (K - 2 * nb)) := by
+  rw [hyYlowFirstWrongEnd, hG 1 (by omega), hG 0 (by omega), hGb 1 (by omega), hGb 0 (by omega)]
+  have a0 : K + ((0 : ℕ) : ℤ) = K := by omega
+  have a1 : K + ((1 : ℕ) : ℤ) = K + 1 := by omega
+  have b0 : K - 2 * (nb : ℤ) + ((0 : ℕ) : ℤ) = K - 2 * (nb : ℤ) := by omega
+  have b1 : K - 2 * (nb : ℤ) + ((1 : ℕ) : ℤ) = K - 2 * (nb : ℤ) + 1 := by omega
+  rw [a0, a1, b0, b1]
+  ring
+
+/-- … which differs from the arc length between the adjacent cell centres exactly when the first and the last half cell of
+    the region below differ -/
+theorem hyYlowFirstWrongEnd_ne_iff (G : ℤ → ℝ) (K : ℤ) (c cb : ℝ) (d db : List ℝ) (ny nb : ℕ) (hny : 1 ≤ ny)
+    (hnb : 1 ≤ nb) (hb : db.length = 2 * nb + 1)
+    (hG : ∀ k : ℕ, k ≤ 2 * ny → d.getD k 0 = G (K + k) - c)
+    (hGb : ∀ k : ℕ, k ≤ 2 * nb → db.getD k 0 = G (K - 2 * nb + k) - cb) :
+    hyYlowFirstWrongEnd d db ≠ hyYlowFirst d (some db) ↔ G (K - 2 * nb + 1) - G (K - 2 * nb) ≠ G K - G (K - 1) := by
+  rw [hyYlowFirstWrongEnd_join G K c cb d db ny nb hny hnb hG hGb,
+    hyYlowFirst_join G K c cb d db ny nb hny hnb hb hG hGb]
+  constructor
+  · intro h h'
+    apply h
+    linarith
+  · intro h h'
+    apply h
+    linarith
+
+/-- the seeded regression on a concrete chain with unequal spacing: arc lengths 0, 1, 3 (region below, own origin) and
+    3, 7, 11 continued as 0, 4, 8 (this region, own origin).  The face at the join is 6 = (3 − 1) + (4 − 0), the distance
+    between the adjacent cell centres; the wrong-end variant gives 5 -/
+theorem hyYlowFirst_wrong_end_counterexample :
+    hyYlowFirst ([0, 4, 8] : List ℝ) (some [0, 1, 3]) = 6 ∧ hyYlowFirstWrongEnd [0, 4, 8] [0, 1, 3] = 5 ∧
+    hyYlowFirstWrongEnd [0, 4, 8] [0, 1, 3] ≠ hyYlowFirst ([0, 4, 8] : List ℝ) (some [0, 1, 3]) := by
+  have h1 : hyYlowFirst ([0, 4, 8] : List ℝ) (some [0, 1, 3]) = 6 := by
+    rw [hyYlowFirst_some]; norm_num
+  have h2 : hyYlowFirstWrongEnd [0, 4, 8] [0, 1, 3] = 5 := by
+    rw [hyYlowFirstWrongEnd]; norm_num
+  refine ⟨h1, h2, ?_⟩
+  rw [h1, h2]
+  norm_num
+
+/-- a periodic region is its own neighbour on both sides: the two end faces are the same face -/
+theorem hyYlow_periodic_ends (d : List ℝ) : hyYlowLast d (some d) = hyYlowFirst d (some d) := by
+  rw [hyYlowLast_some, hyYlowFirst_some]
+  ring
+
+/-- a single periodic region (the core of a grid with one closed region: below = above = the contour itself).  Its ny + 1
+    face values list the face at the branch cut twice (`hyYlow_periodic_ends`); the ny distinct faces — each the distance
+    between two consecutive cell centres going round — add up to `d[2·ny] − d[0]`, the circumference.  No closedness
+    hypothesis on the half cells is needed: the identity is exact for every list -/
+theorem hyYlow_periodic_sum (d : List ℝ) (ny : ℕ) (hd : d.length = 2 * ny + 1) (hny : 1 ≤ ny) :
+    ((hyYlowAll d (some d) (some d)).take ny).sum = d[2 * ny] - d[0] ∧
+    ((hyYlowAll d (some d) (some d)).take ny).sum = (hyCentre d).sum := by
+  have h : ((hyYlowAll d (some d) (some d)).take ny).sum = d[2 * ny] - d[0] := by
+    have e1 : d.length - 1 = 2 * ny := by omega
+    have e2 : d.length - 2 = 2 * ny - 1 := by omega
+    rw [hyYlowAll_take_sum d _ _ ny hd hny, hyYlowFirst_some, e1, e2,
+      List.getD_eq_getElem d 0 (by omega : 2 * ny < d.length), List.getD_eq_getElem d 0 (by omega : 0 < d.length)]
+    ring
+  exact ⟨h, by rw [h, (hy_telescopes d ny hd).2]⟩
+
+/-! ### section 7: concrete values and satisfiability of the hypotheses -/
+
+/-- `hyYlowAll`: a region of two cells between a region below and a target -/
+example : hyYlowAll ([0, 1, 2, 4, 6] : List ℝ) (some [0, 3, 6]) none = [4, 3, 4] := by
+  rw [hyYlowAll_eq, hyYlowFirst_some, hyYlowLast_none]
+  norm_num [hyYlowInner, hyCentre]
+
+/-- `hyYlow_periodic_sum`: a closed contour of three cells with unequal spacing, circumference 12 -/
+example : hyYlowAll ([0, 1, 2, 4, 6, 9, 12] : List ℝ) (some [0, 1, 2, 4, 6, 9, 12]) (some [0, 1, 2, 4, 6, 9, 12])
+    = [4, 3, 5, 4] ∧ (4 : ℝ) + 3 + 5 = 12 - 0 := by
+  rw [hyYlowAll_eq, hyYlowFirst_some, hyYlowLast_some]
+  norm_num [hyYlowInner, hyCentre]
+
+/-- `hyYlowFirst_join`, `hyYlowLast_join`, `hyYlow_sum_join`, `hyYlowFirstWrongEnd_ne_iff`: the chain of
+    `hyYlowFirst_wrong_end_counterexample` with `G k = k²` on points −2 … 4 (K = 0: region below −2, −1, 0, this region
+    0, 1, 2, region above 2, 3, 4), each region measured from its first point -/
+example : ∃ (G : ℤ → ℝ) (K : ℤ) (c cb ca : ℝ) (d db da : List ℝ) (ny nb na : ℕ), 1 ≤ ny ∧ 1 ≤ nb ∧ 1 ≤ na ∧
+    d.length = 2 * ny + 1 ∧ db.length = 2 * nb + 1 ∧
+    (∀ k : ℕ, k ≤ 2 * ny → d.getD k 0 = G (K + k) - c) ∧
+    (∀ k : ℕ, k ≤ 2 * nb → db.getD k 0 = G (K - 2 * nb + k) - cb) ∧
+    (∀ k : ℕ, k ≤ 2 * na → da.getD k 0 = G (K + 2 * ny + k) - ca) ∧
+    G (K - 2 * nb + 1) - G (K - 2 * nb) ≠ G K - G (K - 1) := by
+  refine ⟨fun k => ((k * |k| : ℤ) : ℝ), 0, 0, -4, 4, [0, 1, 4], [0, 3, 4], [0, 5, 12], 1, 1, 1, le_refl _, le_refl _,
+    le_refl _, rfl, rfl, ?_, ?_, ?_, ?_⟩
+  · intro k hk
+    have h : k = 0 ∨ k = 1 ∨ k = 2 := by omega
+    rcases h with rfl | rfl | rfl <;> norm_num
+  · intro k hk
+    have h : k = 0 ∨ k = 1 ∨ k = 2 := by omega
+    rcases h with rfl | rfl | rfl <;> norm_num
+  · intro k hk
+    have h : k = 0 ∨ k = 1 ∨ k = 2 := by omega
+    rcases h with rfl | rfl | rfl <;> norm_num
+  · norm_num
+
+/-- `hyYlowFirst_target`, `hyYlowLast_target`, `hyYlowAll_length`, `hyYlowAll_entries`: a region of two cells -/
+example : ∃ (G : ℤ → ℝ) (K : ℤ) (c : ℝ) (d : List ℝ) (ny : ℕ), 1 ≤ ny ∧ d.length = 2 * ny + 1 ∧
+    ∀ k : ℕ, k ≤ 2 * ny → d.getD k 0 = G (K + k) - c := by
+  refine ⟨fun k => (k : ℝ), 3, 3, [0, 1, 2, 3, 4], 2, by norm_num, rfl, ?_⟩
+  intro k hk
+  have h : k = 0 ∨ k = 1 ∨ k = 2 ∨ k = 3 ∨ k = 4 := by omega
+  rcases h with rfl | rfl | rfl | rfl | rfl <;> norm_num
+
 end HypnoModel.Props.C05
